@@ -270,6 +270,9 @@ theorem v1_writeNumb (c : Ctx) (t : Str) (q : Bool) (ht : t ≠ [] ∧ validate1
   | true => exact v1_writeChar c t true
   | false =>
     simp only [Bool.false_eq_true, ↓reduceIte]
+    by_cases hlong : t.length > LINE
+    · rw [if_pos hlong]; exact v1_writeChar c t false
+    rw [if_neg hlong]
     obtain ⟨r, hr⟩ := Lemmas.WriterTotal.writeULiteral_wrap_some c t none
     obtain ⟨o, c'⟩ := r
     rw [hr]
